@@ -19,7 +19,7 @@ func (a Any) ReferenceOrigins(ctx context.Context) reference.Origins {
 
 	if typ.IsListType() {
 		_, ok := a.expr.(*hclsyntax.TupleConsExpr)
-		if !ok {
+		if !ok && !isJSONArrayExpr(a.expr) {
 			return a.refOriginsForNonComplexExpr(ctx)
 		}
 
@@ -37,7 +37,7 @@ func (a Any) ReferenceOrigins(ctx context.Context) reference.Origins {
 
 	if typ.IsSetType() {
 		_, ok := a.expr.(*hclsyntax.TupleConsExpr)
-		if !ok {
+		if !ok && !isJSONArrayExpr(a.expr) {
 			return a.refOriginsForNonComplexExpr(ctx)
 		}
 
@@ -55,7 +55,7 @@ func (a Any) ReferenceOrigins(ctx context.Context) reference.Origins {
 
 	if typ.IsTupleType() {
 		_, ok := a.expr.(*hclsyntax.TupleConsExpr)
-		if !ok {
+		if !ok && !isJSONArrayExpr(a.expr) {
 			return a.refOriginsForNonComplexExpr(ctx)
 		}
 
@@ -201,5 +201,14 @@ func isJSONObjectExpr(expr hcl.Expression) bool {
 		return false
 	}
 	_, diags := hcl.ExprMap(expr)
+	return !diags.HasErrors()
+}
+
+// isJSONArrayExpr returns true if the given expression is an array in JSON syntax
+func isJSONArrayExpr(expr hcl.Expression) bool {
+	if !json.IsJSONExpression(expr) {
+		return false
+	}
+	_, diags := hcl.ExprList(expr)
 	return !diags.HasErrors()
 }
